@@ -7,6 +7,6 @@ cd /tmp/hbrepo2 || exit 2
 git checkout -q -- . ; git apply $rev "$patch" || { echo "patch does not apply"; exit 2; }
 cd /tmp/hb2 && cargo build --release --offline 2>&1 | grep -E "^error" -A 8 | head -30
 for p in "$@"; do
-  VERIF_DIR=/tmp/hb2 ./target/release/tarpc-verif $p ${TIER:-quick} 2>&1 | grep -E "VIOLATION|^\[|^  C|INCONCL" | cut -c1-300 | head -${LINES_MAX:-6}
+  VERIF_REPO=/tmp/hbrepo2 VERIF_DIR=/tmp/hb2 ./target/release/tarpc-verif $p ${TIER:-quick} 2>&1 | grep -E "VIOLATION|^\[|^  C|INCONCL" | cut -c1-300 | head -${LINES_MAX:-6}
 done
 cd /tmp/hbrepo2 && git checkout -q -- .
